@@ -42,15 +42,26 @@ structure LoadSt where
   idsRaw : List (Str × Yaml) := []
   cond : Option Str := none
 
+/-- The text of a YAML scalar as the `Scalar` helper of rule.rs reads it (condition and identifier
+    names: any scalar is taken by its text, so that text and `Value` routes agree). -/
+def scalarYamlText : Yaml → Option Str
+  | .str s => some s
+  | .bool b => some (if b then "true".toList else "false".toList)
+  | .null => some "null".toList
+  | .num (.int i) => some (intToStr i)
+  | .num (.big n _ _) => some (natToStr n)
+  | .num (.flt _ shown) => some shown
+  | _ => none
+
 /-- The `while let Some(key) = map.next_key()` loop (rule.rs:60-88), entries in document order. -/
 def loadEntries (E : RegexEngine) (ic : Bool) : List (Str × Yaml) → LoadSt → Except Err LoadSt
   | [], st => .ok st
   | (key, v) :: rest, st =>
     if key == condKey then
       if st.cond.isSome then .error (.rule "duplicate") else
-      match v with
-      | .str s => loadEntries E ic rest { st with cond := some s }
-      | _ => .error (.rule "condition-type")
+      match scalarYamlText v with
+      | some s => loadEntries E ic rest { st with cond := some s }
+      | none => .error (.rule "condition-type")
     else
       if (lookupId st.ids key).isSome then .error (.rule "duplicate") else
       match parseIdentifier E ic v with
@@ -112,7 +123,7 @@ def yamlToValue : Yaml → Value
   | .str s => .str s
   | .seq xs => .arr (yamlListToValues xs)
   | .map kvs => .obj (yamlMapToFields kvs)
-  | .tagged => .null
+  | .tagged y => yamlToValue y
 def yamlListToValues : List Yaml → List Value
   | [] => []
   | x :: xs => yamlToValue x :: yamlListToValues xs
@@ -132,6 +143,7 @@ end
 /-- `test.as_mapping()` as a document. -/
 def yamlDoc? : Yaml → Option Doc
   | .map kvs => some (.obj (yamlMapToFields kvs))
+  | .tagged y => yamlDoc? y          -- `Value::as_mapping` looks through tags (`untag_ref`)
   | _ => none
 
 /-! ### validate (rule.rs:534, after the non-mapping repair) -/
